@@ -19,7 +19,7 @@ import (
 func init() { register("C17", "exploration", runC17) }
 
 func runC17(r *ev.Run) {
-	r.SetRule("servers with small limits (4-8 mailboxes, 2-6 messages per mailbox, highest UID 6-16) run histories of CREATE (depth 1-3, i.e. with implicit parents), RENAME onto deep names (also of INBOX, which creates the target and keeps INBOX), DELETE, APPEND, COPY / MOVE of 1-4 messages, EXPUNGE, and connector MessagesCreated (1-4 messages into 1-2 mailboxes), MessageMailboxesUpdated and MailboxCreated, followed by a concurrent phase (3-8 sessions APPEND / COPY into a nearly full mailbox and CREATE at the mailbox limit at the same time). After every step fresh views and LIST are taken and the monitor checks: mailboxes <= max, messages per mailbox <= max, every UID <= max; an operation answered NO / acknowledged with an error leaves every mailbox (UIDs, UIDNEXT, flags) and the mailbox list unchanged, and the remote's mailboxes as they were before the command; an operation that fits by the counts before it is accepted. distinct = distinct (operation, fits?, outcome) triples")
+	r.SetRule("servers with small limits (4-8 mailboxes, 2-6 messages per mailbox, highest UID 6-16) run histories of CREATE (depth 1-3, i.e. with implicit parents), RENAME onto deep names (also of INBOX, which creates the target and keeps INBOX), DELETE, APPEND, COPY / MOVE of 1-4 messages, EXPUNGE, and connector MessagesCreated (1-4 messages into 1-2 mailboxes), MessageMailboxesUpdated and MailboxCreated, followed by a concurrent phase (3-8 sessions APPEND / COPY into a nearly full mailbox and CREATE at the mailbox limit at the same time). After every step fresh views and LIST are taken and the monitor checks: mailboxes <= max, messages per mailbox <= max, every UID <= max; an operation answered NO / acknowledged with an error leaves every mailbox (UIDs, UIDNEXT, flags) and the mailbox list unchanged, and - when it was refused because of the limits - the remote's mailboxes as they were before the command; an operation that fits by the counts before it is accepted. distinct = distinct (operation, fits?, outcome) triples")
 	r.Assume("the recovery mailbox, which exists from the start and is listed only while it holds something, counts as one mailbox both for the 'fits' rule and for the upper bound (selectable mailboxes in LIST other than it, plus one); COPY/MOVE are only required to be accepted when the destination holds none of the messages yet; the UID maximum is exclusive for the 'fits' rule (gluon's own suite asserts that), inclusive for the upper-bound check")
 
 	hist := r.Pick(250, 2500)
@@ -196,7 +196,19 @@ func (c *c17Case) judge(op string, accepted bool, fits, judgeFits bool) bool {
 }
 
 // remoteAfterRefusal records whether the remote had been told something by a command the server then refused.
-// A refused command must not have changed the user's mailboxes on the remote either: what the remote was told
+// refusedByLimits tells a refusal because of the limits (in the server's own words) from one for another reason,
+// e.g. a RENAME blocked by an inferior whose new name exists already.
+func refusedByLimits(res *imapc.Result) bool {
+	for _, e := range []error{limits.ErrMaxMailboxCountReached, limits.ErrMaxMailboxMessageCountReached, limits.ErrMaxUIDReached, limits.ErrMaxUIDValidityReached} {
+		if strings.Contains(res.Text, e.Error()) {
+			return true
+		}
+	}
+
+	return false
+}
+
+// A command refused because of the limits must not have changed the user's mailboxes on the remote either: what the remote was told
 // comes back as updates (or simply stays there) although the client was answered NO.
 func (c *c17Case) remoteAfterRefusal(op string, changed bool, detail ...string) {
 	c.r.Count(fmt.Sprintf("refused %s: remote changed=%v", op, changed), 1)
@@ -336,7 +348,7 @@ func c17History(r *ev.Run, label string, steps int) {
 			c.logf("CREATE %s (creates %d) -> %s %s", name, miss, res.Status, res.Text)
 
 			if !res.OK() {
-				c.remoteAfterRefusal("CREATE", fmt.Sprint(remoteBefore) != fmt.Sprint(conn.SnapshotMailboxes()))
+				c.remoteAfterRefusal("CREATE", refusedByLimits(res) && fmt.Sprint(remoteBefore) != fmt.Sprint(conn.SnapshotMailboxes()))
 				conn.RestoreMailboxes(remoteBefore) // the remote may have been told before the refusal
 			}
 
@@ -378,7 +390,7 @@ func c17History(r *ev.Run, label string, steps int) {
 			c.logf("RENAME %s %s (creates %d parents) -> %s %s", box, name, miss-1, res.Status, res.Text)
 
 			if !res.OK() {
-				c.remoteAfterRefusal("RENAME", fmt.Sprint(remoteBefore) != fmt.Sprint(conn.SnapshotMailboxes()))
+				c.remoteAfterRefusal("RENAME", refusedByLimits(res) && fmt.Sprint(remoteBefore) != fmt.Sprint(conn.SnapshotMailboxes()), fmt.Sprintf("(RENAME %s %s: %s %s)", box, name, res.Status, res.Text))
 				conn.RestoreMailboxes(remoteBefore)
 			}
 
@@ -394,7 +406,7 @@ func c17History(r *ev.Run, label string, steps int) {
 			c.logf("APPEND %s %s -> %s %s", box, mk, res.Status, res.Text)
 
 			if !res.OK() {
-				c.remoteAfterRefusal("APPEND", remoteBefore.Summary() != conn.SnapshotAll().Summary())
+				c.remoteAfterRefusal("APPEND", refusedByLimits(res) && remoteBefore.Summary() != conn.SnapshotAll().Summary())
 				conn.RestoreAll(remoteBefore)
 			}
 
@@ -451,7 +463,7 @@ func c17History(r *ev.Run, label string, steps int) {
 
 			if !res.OK() {
 				// gluon tells the remote before its own limit check refuses the command
-				c.remoteAfterRefusal(strings.TrimPrefix(verb, "UID "), remoteBefore.Summary() != conn.SnapshotAll().Summary(), fmt.Sprintf("(%s %s from %s to %s: %s %s)", verb, set, box, dst, res.Status, res.Text))
+				c.remoteAfterRefusal(strings.TrimPrefix(verb, "UID "), refusedByLimits(res) && remoteBefore.Summary() != conn.SnapshotAll().Summary(), fmt.Sprintf("(%s %s from %s to %s: %s %s)", verb, set, box, dst, res.Status, res.Text))
 				conn.RestoreAll(remoteBefore)
 			}
 			c.logf("[%s] %s %s %s -> %s %s", box, verb, set, dst, res.Status, res.Text)
